@@ -14,8 +14,11 @@ import (
 )
 
 type store struct {
-	mu          sync.RWMutex
-	metadata    btree.Map[string, *metadata]
+	mu       sync.RWMutex
+	metadata btree.Map[string, *metadata]
+	// pending holds the placeholders of keys that do not exist but are locked by a transaction
+	// (which may be about to create them); guarded by mu like the index
+	pending     map[string]*metadata
 	ss          storage.Storage
 	closed      bool
 	watchMu     sync.RWMutex
